@@ -190,7 +190,13 @@ class Executor:
             self._reset()
             self.oracle = Oracle(prefix)
             try:
-                v = thunk(self)
+                try:
+                    v = thunk(self)
+                except Undecided as u:
+                    # keep what was observed before the analysis left its fragment
+                    u.partial_events = list(self.events)
+                    u.partial_paths = list(results)
+                    raise
                 p = Path("return", v, None, self.events, list(self.facts), list(self.oracle.trace), dict(self.arrays))
             except ReturnSignal as r:
                 p = Path("return", r.val, None, self.events, list(self.facts), list(self.oracle.trace), dict(self.arrays))
@@ -569,7 +575,7 @@ class Executor:
             if isinstance(base, ObjV):
                 base.fields[t.attr] = v
                 self.emit("attr_store", st, obj=base, attr=t.attr, value=v)
-            elif isinstance(base, Num):
+            elif isinstance(base, (Num, OpaqueV)):
                 self.emit("ext_attr_store", st, recv=base, attr=t.attr, value=v)
             else:
                 raise Undecided(f"attribute store on {base!r}", st)
